@@ -284,6 +284,24 @@ def store_map(shards):
     return {k: t for sh in shards for k, t in sh}
 
 
+def misplaced(shards):
+    """A track is STORED only if it is found under its id: get_store(id) is shard id % n and the map key is the
+    track's id, once.  -> None or (key, shard index, expected shard, why)"""
+    n = len(shards)
+    seen = set()
+    for si, sh in enumerate(shards):
+        for key, t in sh:
+            if key % n != si:
+                return (key, si, key % n, "track %d sits in shard %d of %d: it is not found under its id (get_store(%d) is shard %d)"
+                        % (key, si, n, key, key % n))
+            if t[0] != key:
+                return (key, si, key % n, "the track with id %d is stored under key %d" % (t[0], key))
+            if key in seen:
+                return (key, si, key % n, "id %d is stored twice" % key)
+            seen.add(key)
+    return None
+
+
 def history_ok(before_h, src_h, after_h, mh, requested_present):
     """merge history after a SUCCESSFUL merge"""
     ext = tuple(before_h) + tuple(src_h)
@@ -343,6 +361,13 @@ def c11_oracle(script, result):
         k = op[0]
         cur = store_map(st["shards"])
         ok = st["r"][1] == 0
+        mp = misplaced(st["shards"])
+        if mp is not None:
+            opname = {"AD": "store-add", "MO": "merge_owned", "ME": "merge_external", "MN": "merge_external", "BA": "add_track"}.get(k, k)
+            role = "source" if (k == "MO" and mp[0] == op[2]) else ("destination" if k in ("MO", "ME", "MN") and mp[0] == op[1] else "track")
+            return ("C11:%s:%s-misplaced" % (opname, role),
+                    "after the %s %s the %s is not stored where it is looked up: %s"
+                    % ("successful" if ok else "failed", fmt_op(op), role, mp[3]), i)
         if k == "AD":
             existed = op[1] in prev
             if not ok and cur != prev:
@@ -537,6 +562,12 @@ def minimise(script, plan, fails):
             if fails(cand):
                 cur = cand
                 changed = True
+                break
+    if cur.kind == "S":
+        for n in range(1, cur.shards):
+            cand = Script(cur.kind, cur.case, cur.ops, n, ((), (), ()), True, cur.meta)
+            if fails(cand):
+                cur = cand
                 break
     return cur
 
